@@ -83,8 +83,7 @@ def run_one(job, timeout):
     model = job[7] if len(job) > 7 else "tb"
     t0 = time.time()
     try:
-        r = subprocess.run(_cmd(features, [scenario, wseed, a, b]), cwd=MIRI_DIR, env=_env(mseed, preempt, model),
-                           capture_output=True, text=True, timeout=timeout)
+        r = H.run_killable(_cmd(features, [scenario, wseed, a, b]), timeout, cwd=MIRI_DIR, env=_env(mseed, preempt, model))
     except subprocess.TimeoutExpired:
         return {"job": job, "timeout": True, "wall": time.time() - t0, "lines": []}
     lines = []
